@@ -134,3 +134,98 @@ def replay_cut_independence(model, params, role):
         out_ref, _ = run_replay(s_ref)
         return norm(out_ref) != norm(out_cut)
     return s_cut, pred, f"{kind} transcript cut at {cuts} vs. delivered whole; expecting different deliveries/phase"
+
+
+ACTOR = "sessionx::actor::SessionConnectionActorX"
+
+
+def _contains_marker(v, marker, depth=0, seen=None):
+    """does the value graph contain a byte sequence holding `marker`?"""
+    seen = seen if seen is not None else set()
+    if id(v) in seen or depth > 40:
+        return False
+    seen.add(id(v))
+    if isinstance(v, Seq):
+        if v.elem_ty == "u8" or (v.f and isinstance(v.f[0], int)):
+            return marker in [x for x in v.f if isinstance(x, int)]
+        return any(_contains_marker(x, marker, depth + 1, seen) for x in v.f)
+    if isinstance(v, (Agg, Enum)):
+        items = v.f.values() if isinstance(v.f, dict) else v.f
+        return any(_contains_marker(x, marker, depth + 1, seen) for x in items)
+    if isinstance(v, Ref):
+        try:
+            return _contains_marker(v.load(), marker, depth + 1, seen)
+        except Exception:
+            return False
+    if isinstance(v, MapV):
+        return any(_contains_marker(k, marker, depth + 1, seen) or _contains_marker(x, marker, depth + 1, seen) for k, x in v.items)
+    return False
+
+
+def actor_handshake_output(h):
+    """The tokio session actor's handshake-phase output handler fed with what the real engine emits when
+    the peer's last handshake bytes and its first data frame share a read: the delivered batch must be kept
+    (the handler has no other way to pass it on than the actor's own state)."""
+    from ..models import MapV as _MapV
+    kind = ["v3-null-server", "v2-server"][h.choose(2, "transcript")]
+    srv, cfgkw, T = _transcript(h, kind)
+    # distinctive payload marker instead of symbolic bytes
+    T = [0x77 if (is_sym(x) and "payload" in str(x)) else x for x in T]
+    eng = mk_engine(h, srv, mk_config(h, **cfgkw))
+    start(h, eng)
+    out = feed(h, eng, T)
+    acts = app_actions(out)
+    h.check(any(a.vname == "HandshakeComplete" for a in acts) and any(a.vname == "DeliverMessage" for a in acts), "c04.actor.setup-engine-emits-handshake-and-data")
+    fields = h.it.prog.struct_fields(ACTOR)
+    ftypes = h.it.prog.struct_field_types(ACTOR)
+    def default_for(f):
+        t = ftypes.get(f, "")
+        if t.startswith("Vec<"):
+            return Seq("vec", [], "?")
+        if t.startswith(("VecDeque<", "std::collections::VecDeque<")):
+            return Seq("vecdeque", [], "?")
+        if t.startswith("Option<"):
+            return Enum("std::option::Option", 0, "None", [])
+        if t == "bool":
+            return False
+        if t in ("usize", "u64", "u32"):
+            return 0
+        return Opaque(f)
+    vals = [default_for(f) for f in fields]
+    def setf(name, v):
+        vals[fields.index(name)] = v
+    setf("handle", 1)
+    setf("parent_socket_id", 1)
+    vs = h.it.prog.enum_variants("sessionx::states::ConnectionPhaseX") or []
+    setf("current_phase", Enum("sessionx::states::ConnectionPhaseX", 0, vs[0] if vs else "Initializing", []))
+    setf("zmtp_engine", eng.load())
+    for nm in ("pending_peer_identity_from_handshake", "pending_peer_socket_type", "error_for_drop_guard", "handshake_deadline", "cork_info",
+               "write_half", "read_half", "ping_check_timer", "incoming_pipe_sender", "_connection_permit"):
+        if nm in fields:
+            setf(nm, Enum("std::option::Option", 0, "None", []))
+    actor = Ref(Cell(Agg(ACTOR, vals), "actor"), ())
+    # the pipe manager is not attached yet during the handshake (ScaInitializePipes is still in the mailbox)
+    for m_ in ("is_attached",):
+        f_ = h.it.prog.resolve_method("", "sessionx::pipe_manager::CorePipeManagerX", m_, None)
+        if f_:
+            h.it.hooks[f_] = lambda it, a, d, f: False
+    h.panic_role = "c04.actor"
+    def extern(it, plain, args, dty, func):
+        if plain.endswith("Future>::poll"):
+            return NotImplemented
+        return NotImplemented
+    # NetAction::Send bytes go to the socket (I/O, not part of this obligation): hand over the app actions only
+    out.f[0] = Seq("vec", [], "?")
+    fn = h.it.prog.resolve_method("", ACTOR, "apply_engine_output_handshake", None)
+    coro = h.it.run_body(h.it.prog.body(fn), [actor, out])
+    r = h.it.run_body(h.it.prog.body(fn + "::{closure#0}"), [Ref(Cell(coro, "coro"), ()), Opaque("cx")])
+    h.check(isinstance(r, Enum) and r.vname == "Ready", "c04.actor.handler-did-not-complete")
+    kept = _contains_marker(actor.load(), 0x77)
+    h.check(kept, "c04.actor.data-sharing-a-read-with-the-handshake-is-dropped",
+            f"{kind}: the engine emitted HandshakeComplete followed by DeliverMessage for one read; after apply_engine_output_handshake the delivered frames are nowhere in the actor's state")
+    h.cover("c04.actor.handler-ran")
+
+
+def replay_actor_handshake_output(model, params, role):
+    return "actor_early_data 0\n", (lambda out: "recv=Err(Timeout)" in out), \
+        "public API: PULL socket on TCP, raw peer writes greeting+READY+data in one write; expecting the data never to be received"
